@@ -207,22 +207,37 @@ def selftest(ctx, cfgs):
     for i, c in enumerate(pick):
         good += record_pictures({"tid": i + 1, "cfg": c["cfg"], "outcome": c["outcome"], "seed": 7 + i, "max_pictures": 2})["records"]
     bad0, _, _ = judge(good)
-    clean = [b for b in bad0 if b["alarm"]]
+    dirty = set(b["line"] for b in bad0 if b["alarm"])
     probe = [json.loads(json.dumps(r)) for r in good]
-    probe[0]["slices"][0]["bytes"] += 1
-    probe[0]["total"] += 1 + 2 * probe[0]["scaler"]
-    bad1, _, _ = judge(probe)
-    if clean or not any(b["alarm"] and b["line"] == 1 for b in bad1):
-        raise RuntimeError("binding self-test failed: corrupted slice size accepted (or clean run rejected: %s)" % clean)
-    return {"mutant": "quantize_to_fit starting at minimum_qindex+1 (in-process monkeypatch)", "clauses_flagging_it": hit, "corrupted_field": "slice bytes/total +1 rejected with %s" % [b["clause"] for b in bad1 if b["line"] == 1]}
+    tgt = next((i for i, r in enumerate(probe) if r["ser"] and (i + 1) not in dirty), None)
+    note = "skipped: every baseline picture already violates C14"
+    if tgt is not None:
+        probe[tgt]["slices"][0]["bytes"] += 1
+        probe[tgt]["total"] += 1 + 2 * probe[tgt]["scaler"]
+        bad1, _, _ = judge(probe)
+        if not any(b["alarm"] and b["line"] == tgt + 1 for b in bad1):
+            raise RuntimeError("binding self-test failed: corrupted slice size accepted")
+        note = "slice bytes/total +1 rejected with %s" % [b["clause"] for b in bad1 if b["line"] == tgt + 1]
+    return {"mutant": "quantize_to_fit starting at minimum_qindex+1 (in-process monkeypatch)", "clauses_flagging_it": hit, "corrupted_field": note}
 
 
 def run(ctx):
     # ---- S + G: the search as a state machine
+    import os
+
     text, consts = rate_cfg(ctx)
-    res = tlc.run("RateControl", text, coverage=True, timeout=3000)
-    ctx.add_tlc(res, "RateControl exhaustive (search machine + size theorems)", consts)
-    fits = cc.printed_json(res, "FIT")
+    fcache = (os.environ.get("VERIF_CODEC_CACHE") or "") + ".fits.json"  # mutation-sanity knob only
+    if os.environ.get("VERIF_CODEC_CACHE") and os.path.exists(fcache):
+        with open(fcache) as f:
+            fits = json.load(f)
+        ctx.coverage["debug_fit_cache_used"] = fcache
+    else:
+        res = tlc.run("RateControl", text, coverage=True, timeout=3000)
+        ctx.add_tlc(res, "RateControl exhaustive (search machine + size theorems)", consts)
+        fits = cc.printed_json(res, "FIT")
+        if os.environ.get("VERIF_CODEC_CACHE"):
+            with open(fcache, "w") as f:
+                json.dump(fits, f)
     uniq = {}
     for f in fits:
         uniq[json.dumps(f["inst"], sort_keys=True)] = f
@@ -244,7 +259,7 @@ def run(ctx):
         del r["spec_q"]
     # ---- T: real pictures of lossy configurations
     cfgs, info = cc.configurations(ctx, only=lossy)
-    limit = ctx.pick(500, 4000)
+    limit = ctx.pick(500, 1500)
     if len(cfgs) > limit:
         step = len(cfgs) / float(limit)
         cfgs = [cfgs[int(i * step)] for i in range(limit)]
